@@ -87,6 +87,26 @@ func flatRows(c *core.Ctx, pkgRel, fn string) ([]gee.Row, *ast.FuncDecl) {
 				expand(r.Tmpl, nr.Guards, nr.Loop, nr.LoopIx, s2, stack, depth+1)
 				continue
 			}
+			// an emission of the value of a helper call stands for the helper's returns
+			if nr.Kind == "emit" && strings.HasPrefix(nr.Tmpl, "VAR:") {
+				if m := callRe.FindStringSubmatch(strings.TrimPrefix(nr.Tmpl, "VAR:")); m != nil && declOf[m[1]] != nil && m[1] != name {
+					expanded := false
+					for _, rr := range rowsOf(m[1]) {
+						if rr.Kind != "return" || rr.In != "" {
+							continue
+						}
+						e := nr
+						e.Tmpl, e.Args = rr.Tmpl, rr.Args
+						e.Guards = append(append([]string(nil), nr.Guards...), rr.Guards...)
+						e.Pos, e.PosStr = rr.Pos, rr.PosStr
+						out = append(out, e)
+						expanded = true
+					}
+					if expanded {
+						continue
+					}
+				}
+			}
 			out = append(out, nr)
 		}
 	}
